@@ -51,8 +51,14 @@ def _infeasible(p, f):
             elif isinstance(n, (ast.AugAssign, ast.AnnAssign)) and isinstance(n.target, ast.Name):
                 assigned.add(n.target.id)
                 const.pop(n.target.id, None)
-        elif kind in ("true", "false") and isinstance(getattr(n, "test", None), ast.Name):
-            v = n.test.id
+        elif kind in ("true", "false") and getattr(n, "test", None) is not None:
+            test = n.test
+            while isinstance(test, ast.UnaryOp) and isinstance(test.op, ast.Not):
+                test = test.operand
+                kind = "false" if kind == "true" else "true"
+            if not isinstance(test, ast.Name):
+                continue
+            v = test.id
             if v in const and bool(const[v]) != (kind == "true"):
                 return True
             if v not in assigned:
@@ -74,7 +80,17 @@ def check(run, M, tier):
             if p.end != "return":
                 continue
             decisions = {unparse(n.test): k for k, n in p.events if k in ("true", "false")}
-            if decisions.get("np.abs(area) > 0") != "true":
+            # decisions as terms in the comparison normal form (`not c`, `0 < abs(area)` ... all denote the same condition)
+            from ..vn import negate
+            dterms = []
+            for k, n in p.events:
+                if k in ("true", "false"):
+                    try:
+                        t_ = VN(M, f, real=SCALARS)._as_term(VN(M, f, real=SCALARS).ev(n.test, State()))
+                    except Unrecognised:
+                        continue
+                    dterms.append(T.show(t_ if k == "true" else negate(t_), 200))
+            if "pos(abs(area))" not in dterms:
                 continue
             if _infeasible(p, f):
                 continue  # e.g. trap_grad's ramp-sampling flag is the constant 1 whenever it is bound; the other arm cannot be reached with a return
@@ -83,10 +99,10 @@ def check(run, M, tier):
             ep.run_block(p.stmts())
             ret = p.end_node.value
             val = ep.v(ret.elts[0]) if isinstance(ret, ast.Tuple) else ep.v(ret)
-            label = "%s[%s]" % (name, ", ".join("%s=%s" % kv for kv in sorted(decisions.items()) if kv[0] not in ("np.abs(area) > 0",))[:70])
+            label = "%s[%s]" % (name, " and ".join(sorted(d for d in dterms if d != "pos(abs(area))"))[:70])
             run.check(val == (ZERO_, ZERO_), "Z1", label, f.loc(p.end_node), "returned waveform has zero first and last sample",
                       "%s: on the positive-area path [%s] the returned waveform has endpoints %s (Z = provably zero): it need not start/end at zero"
-                      % (name, ", ".join("%s -> %s" % kv for kv in sorted(decisions.items())), val), stmt="Z1:%s:%s" % (name, sorted(decisions.items())))
+                      % (name, ", ".join("%s -> %s" % kv for kv in sorted(decisions.items())), val), stmt="Z1:%s:%s" % (name, sorted(dterms)))
         run.floor("Z1-" + name, 2, n_pos, "positive-area returning paths of " + name)
         # ---- Z2 : exact area
         vn = VN(M, f, real=SCALARS, scalars=SCALARS | {"np.pi"})
